@@ -54,6 +54,13 @@ macro_rules! ast_unwrap {
     }};
 }
 
+/// The children of `pair` that carry meaning. pest inserts the implicit `COMMENT` rule between
+/// the tokens of every non-atomic rule, and the conversions below read children by position:
+/// a comment between two tokens of a declaration must not shift them.
+fn children(pair: Pair<'_, Rule>) -> impl Iterator<Item = Pair<'_, Rule>> {
+    pair.into_inner().filter(|p| p.as_rule() != Rule::COMMENT)
+}
+
 impl From<pest::Span<'_>> for Span {
     fn from(value: pest::Span) -> Self {
         Self {
@@ -84,11 +91,11 @@ impl InterfaceNode {
         match pair.as_rule() {
             Rule::error => Self::Error(Ident {
                 span: pair.as_span().into(),
-                ident: pair.into_inner().nth(1).unwrap().as_str().to_string(),
+                ident: children(pair).nth(1).unwrap().as_str().to_string(),
             }),
             Rule::r#const => Self::Const(parse_const(pair, allow_undefined_behavior)),
             Rule::function => {
-                let mut inner = pair.into_inner();
+                let mut inner = children(pair);
                 let mut attributes = Vec::new();
                 let function_keyword = ast_unwrap!(inner.next());
                 for attribute in function_keyword.into_inner() {
@@ -139,7 +146,7 @@ impl<'a> From<Pair<'a, Rule>> for FunctionAttribute {
 
 impl<'a> From<Pair<'a, Rule>> for Param {
     fn from(value: Pair<'a, Rule>) -> Self {
-        let mut params = value.into_inner();
+        let mut params = children(value);
         let mutability = ast_unwrap!(params.next()).as_str();
         let r#type = ast_unwrap!(params.next());
         let ident = ast_unwrap!(params.next()).into();
@@ -178,7 +185,7 @@ impl From<Pair<'_, Rule>> for Type {
 impl From<Pair<'_, Rule>> for ParamTypeIn {
     fn from(rule: Pair<Rule>) -> Self {
         debug_assert_eq!(rule.as_rule(), Rule::param_type);
-        let mut inner = rule.into_inner();
+        let mut inner = children(rule);
         let r#type = Type::from(ast_unwrap!(inner.next()));
         if let Type::Custom(r#type) = &r#type {
             if r#type == "buffer" {
@@ -190,7 +197,8 @@ impl From<Pair<'_, Rule>> for ParamTypeIn {
             match pair.as_rule() {
                 Rule::unbounded_array => Self::Array(r#type, None),
                 Rule::bounded_array => {
-                    let array_len: Count = ast_unwrap!(pair.into_inner().as_str().parse());
+                    let size = ast_unwrap!(children(pair).next());
+                    let array_len: Count = ast_unwrap!(size.as_str().parse());
                     Self::Array(r#type, Some(array_len))
                 }
                 _ => unreachable!(),
@@ -203,7 +211,7 @@ impl From<Pair<'_, Rule>> for ParamTypeIn {
 impl From<Pair<'_, Rule>> for ParamTypeOut {
     fn from(rule: Pair<Rule>) -> Self {
         debug_assert_eq!(rule.as_rule(), Rule::param_type);
-        let mut inner = rule.into_inner();
+        let mut inner = children(rule);
         let r#type = Type::from(ast_unwrap!(inner.next()));
         if let Type::Custom(r#type) = &r#type {
             if r#type == "buffer" {
@@ -215,7 +223,8 @@ impl From<Pair<'_, Rule>> for ParamTypeOut {
             match pair.as_rule() {
                 Rule::unbounded_array => Self::Array(r#type, None),
                 Rule::bounded_array => {
-                    let array_len: Count = ast_unwrap!(pair.into_inner().as_str().parse());
+                    let size = ast_unwrap!(children(pair).next());
+                    let array_len: Count = ast_unwrap!(size.as_str().parse());
                     Self::Array(r#type, Some(array_len))
                 }
                 _ => unreachable!(),
@@ -253,19 +262,19 @@ fn parse_include(pair: Pair<Rule>) -> Rc<Node> {
 }
 
 fn parse_struct(pair: Pair<Rule>) -> Rc<Node> {
-    let mut struct_pst = pair.into_inner().skip(1);
+    let mut struct_pst = children(pair).skip(1);
     let ident: Ident = ast_unwrap!(struct_pst.next()).into();
     let mut fields = Vec::<StructField>::new();
     for rule in struct_pst {
         match rule.as_rule() {
             Rule::struct_field => {
-                let mut iter = rule.into_inner();
+                let mut iter = children(rule);
                 let r#type = Type::from(ast_unwrap!(iter.next()));
                 let next = ast_unwrap!(iter.next());
                 let (elem, ident) = match next.as_rule() {
                     Rule::bounded_array => {
-                        let array_len: Count =
-                            ast_unwrap!(next.clone().into_inner().as_str().parse());
+                        let size = ast_unwrap!(children(next.clone()).next());
+                        let array_len: Count = ast_unwrap!(size.as_str().parse());
                         let ident = ast_unwrap!(iter.next()).as_str().to_string();
                         (array_len, ident)
                     }
@@ -294,7 +303,7 @@ fn parse_struct(pair: Pair<Rule>) -> Rc<Node> {
 }
 
 fn parse_const(pair: Pair<Rule>, allow_undefined_behavior: bool) -> Const {
-    let mut inner = pair.into_inner().skip(1);
+    let mut inner = children(pair).skip(1);
 
     let ty = ast_unwrap!(inner.next()).as_str();
     let ident = ast_unwrap!(inner.next()).into();
@@ -317,7 +326,11 @@ fn parse_const(pair: Pair<Rule>, allow_undefined_behavior: bool) -> Const {
 fn parse_interface(pair: Pair<Rule>, allow_undefined_behavior: bool) -> Rc<Node> {
     let span = Span::from(pair.as_span());
     let mut interface = pair.into_inner().skip(1);
-    let mut pairs = ast_unwrap!(interface.next()).into_inner();
+    // the `iname` header; a comment may sit between the keyword and the name
+    let header = ast_unwrap!(interface
+        .by_ref()
+        .find(|p| p.as_rule() != Rule::COMMENT));
+    let mut pairs = children(header);
     let ident = ast_unwrap!(pairs.next()).as_str().to_string();
     let base = pairs
         .next()
